@@ -427,6 +427,18 @@ def _parent_events(space):
                 E.outcome(lambda ty=ty, inc=inc: p.has_ancestor_of_type(ty, include_self=inc))]
                for ty in ("chromosome", "sequence_chunk", "x") for inc in (True, False)]
         ev.append(["parent", a, o, oc(p.strip_location_info), resets, anc])
+    # identifiers that are EMPTY but not absent ("" is an id like any other: only None means "not given"): the three places
+    # an id can come from (own, the location's parent, the sequence) must agree on every value that is not None
+    ids = {"N": None, "E": "", "c": "chr1", "d": "chr2"}
+    code = {v: k for k, v in ids.items()}
+    for x in ids:
+        for y in ids:
+            for z in ids:
+                def build(x=x, y=y, z=z):
+                    loc = SingleInterval(0, 3, Strand.PLUS, parent=Parent(id=ids[y])) if y != "N" else None
+                    sq = Sequence("ACGT", Alphabet.NT_STRICT, id=ids[z]) if z != "N" else None
+                    return Parent(id=ids[x], location=loc, sequence=sq)
+                ev.append(["pids", x, y, z, E.outcome(build, lambda r: (code.get(r.id, "?"),))])
     return ev
 
 
